@@ -299,7 +299,7 @@ func (d Decimal) PowWithMode(o Decimal, mode RoundingMode) Decimal {
 	}
 
 	if !oNeg && oExp >= exponentBias && dSig == (uint128{1, 0}) {
-		if oSig[1] != 0 || oSig[0] > maxUnbiasedExponent {
+		if oSig[1] != 0 || oSig[0] > exponentBias+maxDigits {
 			if dExp == exponentBias {
 				return one(neg)
 			}
